@@ -35,9 +35,21 @@ echo "[$name] demo clean rc=$rc_clean (want 0), build rc=$rc_build (want 0), dem
 rc_suite="skipped"
 if [ "$full" = "full" ] && [ $rc_clean -eq 0 ] && [ $rc_build -eq 0 ] && [ $rc_mut -ne 0 ]; then
   git status --porcelain | grep '^??' | awk '{print $2}' | xargs -r rm -rf   # remove the demo files
+  # the repository's integration tests bind fixed ports: one suite at a time on this machine (flock), and a
+  # package that failed is re-run alone (up to 3 times) before it counts as a failure
+  exec 9>/tmp/mev/suite.lock; flock 9
   go test -vet=off -count=1 -timeout 25m ./... > "$d/confirm.suite.log" 2>&1
-  fails=$(grep -E '^(--- FAIL|FAIL)' "$d/confirm.suite.log" | grep -v 'TestInitConfigNonNotExistError\|evermint/v12/client\b\|^FAIL$' | head -5)
-  if [ -z "$fails" ]; then rc_suite=pass; else rc_suite="FAIL: $(echo $fails | cut -c1-300)"; fi
+  failed_pkgs=$(grep -E '^FAIL\s+github.com' "$d/confirm.suite.log" | awk '{print $2}' | grep -v 'evermint/v12/client$' | sort -u)
+  still=""
+  for pkg in $failed_pkgs; do
+    ok=0
+    for try in 1 2 3; do
+      if go test -vet=off -count=1 -p 1 -timeout 25m "$pkg" >> "$d/confirm.suite.retry.log" 2>&1; then ok=1; break; fi
+    done
+    [ $ok -eq 1 ] || still="$still $pkg"
+  done
+  flock -u 9
+  if [ -z "$still" ]; then rc_suite=pass; [ -n "$failed_pkgs" ] && rc_suite="pass (after re-running alone: $(echo $failed_pkgs | sed 's#github.com/EscanBE/evermint/v12/##g'))"; else rc_suite="FAIL:$still"; fi
 fi
 echo "[$name] suite: $rc_suite"
 jq -n --arg clean "$rc_clean" --arg build "$rc_build" --arg mut "$rc_mut" --arg suite "$rc_suite" '{demo_on_clean_tree_rc:$clean, build_rc:$build, demo_with_change_rc:$mut, full_suite:$suite}' > "$d/confirm.json"
